@@ -574,10 +574,12 @@ def reduce_desc(d, still_fails, budget=40):
 # ------------------------------------------------------------------------------------------------
 # the check
 # ------------------------------------------------------------------------------------------------
-RULE = ("case = one C translation unit: 1-3 helper functions and a function f over 2-4 int/long/unsigned/double parameters "
-        "whose body has declarations (initialisers, const, arrays, pointers, strings), expression statements over every C "
-        "operator with generated minimal and redundant parentheses, casts, calls, subscripts, sizeof, char/string literals "
-        "with escapes, if/else-if/else, for, while, do-while, switch/case/default/break/continue/return and nested blocks; a "
+RULE = ("case = one C translation unit: optional top-level typedefs (also typedef chains and typedefs of a struct), one struct "
+        "(plain or typedef'd, int bit fields), one enum, global constants, 1-3 helper functions and a function f over 2-4 "
+        "int/long/unsigned/double parameters whose body has declarations (initialisers, const before/after the type, arrays, "
+        "pointers and pointers to const, struct and enum variables, strings), expression statements over every C operator with "
+        "generated minimal and redundant parentheses, casts, calls, subscripts, sizeof, char/string literals with escapes and "
+        "L/u8/R prefixes, if/else-if/else, for, while, do-while, switch/case/default/break/continue/return and nested blocks; a "
         "reference interpreter executes every generated statement on the 3 argument tuples and keeps only well-defined ones. "
         "Oracles: O1 S(parse(print(parse p))) == S(parse p), print idempotent, printed text re-parses; O2 g++ evaluates the "
         "original and the printed text to the same values. Programs OCCA rejects are outside the quantifier (counted as "
